@@ -7,13 +7,15 @@ from sa.astx import call_attr, call_name, names_read, src, statements, walk_loca
 from sa.effects import class_accesses
 from sa.selftest import Mutant, Silent
 from sa.source import AnalysisError
-from sa.props._lib_i import sect, COMPAT, BlockRaised, NotPure, Raised, eval_block, interp, peval
+from sa.props._lib_i import sect, COMPAT, BlockRaised, NotPure, Raised, eval_block, interp, module_env, peval
 
 PROPERTY = "C45"
 JELLY = "spread/jelly.py"
-TECHNIQUE = "CFG dominance + provenance over _Unjellier, finite evaluation of name derivations and SecurityOptions"
+TECHNIQUE = "CFG dominance + provenance over _Unjellier; whole-method evaluation under modelled policies"
 EXPLANATION = (
-    "Over every method of _Unjellier: each resolver sink (namedObject / namedAny / __import__ and relatives; eval/exec are forbidden) "
+    "Every method of _Unjellier that contains a resolver is evaluated as a whole with a modelled policy (exact-membership module "
+    "allow-lists) and recording resolvers on crafted wire names: a name is resolved only when exactly its module part is allowed, "
+    "whatever idiom derives that part. Structurally, over every method: each resolver sink (namedObject / namedAny / __import__ and relatives; eval/exec are forbidden) "
     "is dominated by the true branch of self.taster.isModuleAllowed(m), and m is shown - by evaluating the assignment slice on "
     "sample wire names - to be exactly the module part of the very name that is resolved; every class produced by a resolver is "
     "returned / instantiated only under a dominating isClassAllowed(cls); every instantiation sink (_genericUnjelly, _newInstance, "
@@ -23,7 +25,8 @@ EXPLANATION = (
     "taster is written only in __init__, the module-level unjelly() (default: allow-all policy) and _Unjellier() are never re-entered "
     "from inside, registries are written only by the setUnjellyable* registration functions. SecurityOptions' three predicates are "
     "evaluated on a finite domain (exact membership, dotted type names defer to the module/class policy, empty defaults). "
-    "Not decided: preservation of shared / cyclic graphs of allowed objects (value-level)."
+    "The reference table (_unjelly_dereference / _unjelly_reference) is evaluated: a registered object - also a falsy one - is "
+    "handed back and kept, only an unknown id gets a placeholder. Not decided: full graph equality of jelly/unjelly round trips."
 )
 ASSUMPTIONS = [
     "twisted.python.reflect.namedObject/namedAny import exactly the module part of the dotted name they are given",
@@ -93,14 +96,150 @@ def _is_call_to(x, names):
     return isinstance(x, ast.Call) and (call_name(x) in names)
 
 
+def _policy_arg(func, expr, method):
+    """The argument ``x`` when ``expr`` is (a cached result of) ``self.taster.<method>(x)`` - also through a local alias of the
+    taster (``t = self.taster``) or of the bound method (``allowed = self.taster.isModuleAllowed``); else None."""
+    defs = _single_defs(func)
+
+    def one_def(name):
+        d = defs.get(name, [])
+        if len(d) == 1 and isinstance(d[0], ast.Assign) and len(d[0].targets) == 1 and isinstance(d[0].targets[0], ast.Name):
+            return d[0].value
+        return None
+
+    def is_taster(e):
+        if src(e) == "self.taster":
+            return True
+        return isinstance(e, ast.Name) and one_def(e.id) is not None and src(one_def(e.id)) == "self.taster"
+
+    def is_method(e):
+        if isinstance(e, ast.Attribute) and e.attr == method and is_taster(e.value):
+            return True
+        if isinstance(e, ast.Name) and one_def(e.id) is not None:
+            v = one_def(e.id)
+            return isinstance(v, ast.Attribute) and v.attr == method and is_taster(v.value)
+        return False
+    if isinstance(expr, ast.Call) and len(expr.args) == 1 and not expr.keywords and is_method(expr.func):
+        return expr.args[0]
+    if isinstance(expr, ast.Name) and one_def(expr.id) is not None and isinstance(one_def(expr.id), ast.Call):
+        return _policy_arg(func, one_def(expr.id), method)
+    return None
+
+
 def _guard_args(g, nid, method):
     """Argument expressions of ``self.taster.<method>(arg)`` tests whose TRUE edge dominates node nid."""
     out = []
     for t, lab in g.edge_guards(nid):
-        e = g.node(t).ast
-        if lab == "T" and isinstance(e, ast.Call) and call_name(e) == "self.taster." + method and len(e.args) == 1:
-            out.append(e.args[0])
+        a = _policy_arg(g.func, g.node(t).ast, method) if lab == "T" else None
+        if a is not None:
+            out.append(a)
     return out
+
+
+class _Resolved:
+    """Stand-in for whatever a resolver returns (a class, so that `type(x) is type` style checks pass)."""
+
+
+def _norm(m):
+    return m.decode("ascii") if isinstance(m, bytes) else m
+
+
+WIRE_NAMES = [b"a.b.C", b"a.b.c.D", b"a.bc.D", b"a.D", b"os.system", b"a.b.os.system", b"a.b.os.path.join", b"C", b"a.b", b"a.b.C.method"]
+POLICIES = [frozenset(), frozenset({"a.b"}), frozenset({"a"}), frozenset({"a.b", "os.path"})]
+
+
+def _resolver_semantics(ctx, f, fq, menv):
+    """Evaluate the whole method with a modelled policy (exact-membership module allow-list, every class / type allowed) and
+    recording resolvers: whatever idiom derives the module name, a name may be resolved only when the module that will really
+    be imported / traversed for it - everything before the last dot (the whole name for module resolvers) - is allowed."""
+    params = [a.arg for a in f.args.args if a.arg != "self"]
+    if len(params) != 1:
+        raise AnalysisError(f"{f.name}: expected (self, <s-expression>)")
+    bad = None
+    n = 0
+    for allowed in POLICIES:
+        for name in WIRE_NAMES:
+            resolved = []
+            funcs = dict(COMPAT)
+            for r in RESOLVERS_OBJECT:
+                funcs[r] = lambda x, *a, _r=resolved: (_r.append(("object", _norm(x))), _Resolved)[1]
+            for r in RESOLVERS_MODULE:
+                funcs[r] = lambda x, *a, _r=resolved: (_r.append(("module", _norm(x))), _Resolved)[1]
+            funcs["getattr"] = lambda o, nme, d=None: d
+            funcs["hasattr"] = lambda o, nme: False
+            funcs["qual"] = lambda o: "qual"
+            env = dict(menv)
+            env.update({"self": object(), params[0]: [name, [b"dictionary"]],
+                        "self.taster.isModuleAllowed": lambda m, _a=allowed: _norm(m) in _a, "self.taster.isClassAllowed": lambda c: True,
+                        "self.taster.isTypeAllowed": lambda t: True, "self._genericUnjelly": lambda c, st: ("instance of", c),
+                        "self._maybePostUnjelly": lambda o: o, "self.unjelly": lambda o: o, "unjellyableRegistry": {}, "unjellyableFactoryRegistry": {}})
+            try:
+                eval_block(f.body, env, funcs=funcs)
+            except BlockRaised:
+                pass                     # the evaluated method raises (e.g. on a name without a dot): nothing more is resolved
+            n += 1
+            for kind, x in resolved:
+                module = x if kind == "module" else x.rpartition(".")[0]
+                if module not in allowed and bad is None:
+                    bad = (name, sorted(allowed), kind, x, module)
+    ctx.check(bad is None, "resolver/never-resolves-outside-policy", fq + " | <whole method, modelled policy>",
+              bad and f"with modules {bad[1]!r} allowed, the s-expression naming {bad[0]!r} makes the method resolve {bad[3]!r}, which imports / traverses module {bad[4]!r} - "
+              "a module the policy does not allow (the policy must be asked about exactly the module part of the name that is resolved)",
+              detail=f"{n} (policy, wire name) cases")
+
+
+def _check_references(ctx, menv):
+    """Shared / cyclic references: the reference table must hand back exactly the object registered under an id - whatever its
+    truth value - and create a placeholder only for an unknown id."""
+    base = "twisted.spread.jelly._Unjellier."
+
+    class Placeholder:
+        def __init__(self, refid):
+            self.refid = refid
+            self.resolved = []
+
+        def resolveDependants(self, o):
+            self.resolved.append(o)
+
+        def addDependant(self, *a):
+            pass
+    from sa.props._lib_i import Model
+
+    class NotKnown(Model, Placeholder):
+        pass
+    f = ctx.func(JELLY, "_Unjellier._unjelly_dereference")
+    p = [a.arg for a in f.args.args if a.arg != "self"][0]
+    for label, value in (("empty list", []), ("empty dict", {}), ("empty tuple", ()), ("zero", 0), ("empty bytes", b""), ("non-empty list", [1])):
+        table = {7: value}
+        env = dict(menv)
+        env.update({"self": object(), "self.references": table, p: [7], "NotKnown": NotKnown})
+        r = eval_block(f.body, env, funcs={**COMPAT, "_Dereference": NotKnown})
+        ctx.check(r.returned and r.value is value and table.get(7) is value, "references/table-discipline", f"{base}_unjelly_dereference | registered object: {label}",
+                  f"a dereference of id 7, registered as {value!r}, returns {r.value!r} and leaves {table.get(7)!r} in the table: a shared {label} is replaced by an "
+                  "unresolved placeholder in the result")
+    table = {}
+    env = dict(menv)
+    env.update({"self": object(), "self.references": table, p: [7], "NotKnown": NotKnown})
+    r = eval_block(f.body, env, funcs={**COMPAT, "_Dereference": NotKnown})
+    ctx.check(r.returned and isinstance(r.value, NotKnown) and table.get(7) is r.value, "references/table-discipline", base + "_unjelly_dereference | unknown id",
+              f"a dereference of an id not seen yet returns {r.value!r} with table {table!r}: it must register and return one placeholder (forward / cyclic reference)")
+    f = ctx.func(JELLY, "_Unjellier._unjelly_reference")
+    p = [a.arg for a in f.args.args if a.arg != "self"][0]
+    for label, obj in (("empty list", []), ("non-empty list", [1]), ("zero", 0)):
+        for prior in ("absent", "placeholder"):
+            ph = NotKnown(7)
+            table = {} if prior == "absent" else {7: ph}
+            env = dict(menv)
+            env.update({"self": object(), "self.references": table, "self.unjelly": lambda e, _o=obj: _o, p: [7, [b"x"]], "NotKnown": NotKnown})
+            try:
+                r = eval_block(f.body, env, funcs=dict(COMPAT))
+                ok = r.returned and r.value is obj and table.get(7) is obj and (prior == "absent" or ph.resolved == [obj])
+                got = (r.value, table.get(7), ph.resolved)
+            except BlockRaised as ex:
+                ok, got = False, repr(ex.exc)
+            ctx.check(ok, "references/table-discipline", f"{base}_unjelly_reference | {label}, id {prior} before",
+                      f"registering {obj!r} under id 7 ({prior} before) gives (result, table entry, placeholder notifications) = {got!r}; the object itself must be "
+                      "returned, stored, and announced to a waiting placeholder")
 
 
 def check(ctx):
@@ -108,6 +247,7 @@ def check(ctx):
     cls = ctx.cls(JELLY, "_Unjellier")
     base = "twisted.spread.jelly."
     funcs = dict(COMPAT)
+    menv = module_env(mod)
     meths = [(q, f) for q, f in mod.functions() if q.startswith("_Unjellier.")]
     ctx.need(meths, "_Unjellier methods")
     n_res = n_inst = n_getattr = 0
@@ -122,6 +262,13 @@ def check(ctx):
                 ctx.violation("unjelly/no-code-evaluation", ctx.construct(fq, c), f"{call_name(c)}() on data reachable from the wire")
         # ---- R1 resolver sinks
         sinks = g.find(lambda x: _is_call_to(x, RESOLVERS_OBJECT | RESOLVERS_MODULE))
+        semantic = False
+        if sinks:
+            try:
+                _resolver_semantics(ctx, f, fq, menv)
+                semantic = True
+            except AnalysisError as ex:
+                ctx.note(f"{q}: whole-method evaluation not possible ({ex}); decided by the structural rules only")
         for s in sinks:
             for call in [x for x in walk_local(g.node(s).ast) if _is_call_to(x, RESOLVERS_OBJECT | RESOLVERS_MODULE)]:
                 n_res += 1
@@ -132,7 +279,7 @@ def check(ctx):
                 ok = ctx.check(bool(margs), "resolver/module-policy-dominates", ctx.construct(fq, call),
                                f"{name}({src(xarg)}) can be reached without self.taster.isModuleAllowed(...) having answered true: a name from the wire is "
                                "imported / resolved in a module the policy does not allow", witness=g.describe(g.path([g.entry], [s])))
-                if ok:
+                if ok and not semantic:      # fallback only: the whole-method evaluation above decides this clause whenever the method is evaluable
                     bad = None
                     for sample in SAMPLES:
                         vals = _slice_values(f, [xarg] + margs, [sample, [b"dictionary"]], funcs)
@@ -223,12 +370,12 @@ def check(ctx):
         f = ctx.func(JELLY, "_Unjellier.unjelly")
         g = ctx.cfg(f)
         fq = base + "_Unjellier.unjelly"
-        tguards = g.ids(lambda n: n.kind == "test" and isinstance(n.ast, ast.Call) and call_name(n.ast) == "self.taster.isTypeAllowed")
+        tguards = g.ids(lambda n: n.kind == "test" and _policy_arg(f, n.ast, "isTypeAllowed") is not None)
         ctx.check(len(tguards) >= 1, "type-policy/first", fq + " | isTypeAllowed test", "unjelly() no longer asks the policy whether the type atom is allowed")
         acted = 0
         for n in g.ids(lambda n: n.kind in ("stmt", "test")):
             node = g.node(n)
-            calls = [c for c in walk_local(node.ast) if isinstance(c, ast.Call) and call_name(c) not in ("type", "self.taster.isTypeAllowed", "InsecureJelly")]
+            calls = [c for c in walk_local(node.ast) if isinstance(c, ast.Call) and call_name(c) not in ("type", "InsecureJelly") and _policy_arg(f, c, "isTypeAllowed") is None]
             if not calls or n in tguards:
                 continue
             if isinstance(node.ast, ast.Raise):
@@ -241,7 +388,7 @@ def check(ctx):
         # the atom asked about is the atom dispatched on
         atom_exprs = []
         for t in tguards:
-            atom_exprs.append(("policy", g.node(t).ast.args[0]))
+            atom_exprs.append(("policy", _policy_arg(f, g.node(t).ast, "isTypeAllowed")))
         for c in ast.walk(f):
             if isinstance(c, ast.Call) and call_attr(c) == "get" and "Registry" in src(c.func) and c.args:
                 atom_exprs.append(("registry", c.args[0]))
@@ -281,6 +428,10 @@ def check(ctx):
                     ctx.check(REGISTRY_WRITERS.get(q) == tgt, "registry/who-may-write", ctx.construct(base + q, st if not isinstance(st, ast.Call) else st),
                               f"{tgt} is modified in {q}: classes become instantiable from the wire without having been registered through the setUnjellyable* functions")
         ctx.floor("registry/who-may-write", nreg, 2)
+
+    # ---- reference table discipline (shared and cyclic references)
+    with sect(ctx, 'reference table discipline'):
+        _check_references(ctx, menv)
 
     # ---- SecurityOptions predicates on a finite domain
     with sect(ctx, 'SecurityOptions predicates on a finite domain'):
@@ -366,7 +517,7 @@ MUTANTS = [
            "            clz = namedObject(jelTypeText)\n", expect_rule="resolver/class-policy"),
     Mutant("class-atom-class-check-dropped", JELLY, '        if not self.taster.isClassAllowed(klaus):\n            raise InsecureJelly("class not allowed: %s" % qual(klaus))\n        return klaus\n', "        return klaus\n",
            expect_rule="resolver/class-policy"),
-    Mutant("module-part-too-short", JELLY, '        modName = nativeString(".").join(clist[:-1])\n', '        modName = nativeString(".").join(clist[:1])\n', expect_rule="resolver/checked-module-is-resolved-module"),
+    Mutant("module-part-too-short", JELLY, '        modName = nativeString(".").join(clist[:-1])\n', '        modName = nativeString(".").join(clist[:1])\n', expect_rule="resolver/never-resolves-outside-policy"),
     Mutant("module-check-logged-not-enforced", JELLY, '        if not self.taster.isModuleAllowed(moduleName):\n            raise InsecureJelly(f"Attempted to unjelly module named {moduleName!r}")\n',
            '        if not self.taster.isModuleAllowed(moduleName):\n            warnings.warn(f"Attempted to unjelly module named {moduleName!r}")\n', expect_rule="resolver/module-policy-dominates"),
     Mutant("instance-atom-resolves-name-itself", JELLY, "        clz = self.unjelly(rest[0])\n        return self._genericUnjelly(clz, rest[1])\n",
@@ -378,6 +529,14 @@ MUTANTS = [
     Mutant("type-check-after-registry", JELLY, "        if not self.taster.isTypeAllowed(jelTypeBytes):\n            raise InsecureJelly(jelTypeBytes)\n        regClass = unjellyableRegistry.get(jelTypeBytes)\n",
            "        regClass = unjellyableRegistry.get(jelTypeBytes)\n        if regClass is None and not self.taster.isTypeAllowed(jelTypeBytes):\n            raise InsecureJelly(jelTypeBytes)\n",
            expect_rule="type-policy/first"),
+    Mutant("cached-answer-of-a-different-name", JELLY, '        if not self.taster.isModuleAllowed(modName):\n            raise InsecureJelly("Module not allowed: %s" % modName)\n',
+           '        allowed = self.taster.isModuleAllowed(modSplit[0])\n        if not allowed:\n            raise InsecureJelly("Module not allowed: %s" % modName)\n',
+           expect_rule="resolver/never-resolves-outside-policy"),
+    Mutant("function-any-allowed-prefix", JELLY, '        modName = nativeString(".").join(modSplit[:-1])\n        if not self.taster.isModuleAllowed(modName):\n            raise InsecureJelly("Module not allowed: %s" % modName)\n',
+           '        cut = len(modSplit) - 1\n        while cut > 0 and not self.taster.isModuleAllowed(nativeString(".").join(modSplit[:cut])):\n            cut -= 1\n'
+           '        if cut == 0:\n            raise InsecureJelly("Module not allowed: %s" % fname)\n', expect_rule="resolver/never-resolves-outside-policy"),
+    Mutant("dereference-truthiness-test", JELLY, "        if x is not None:\n            return x\n        der = _Dereference(refid)\n        self.references[refid] = der\n        return der\n",
+           "        if x:\n            return x\n        der = _Dereference(refid)\n        self.references[refid] = der\n        return der\n", expect_rule="references/table-discipline"),
     Mutant("module-policy-prefix-match", JELLY, "        return moduleName in self.allowedModules\n", "        return any(moduleName.startswith(m) for m in self.allowedModules)\n",
            expect_rule="policy/module-exact-membership"),
     Mutant("type-policy-allows-code-atoms-by-default", JELLY, '            b"frozenset": 1,\n        }\n', '            b"frozenset": 1,\n            b"function": 1,\n        }\n', expect_rule="policy/defaults-empty"),
@@ -387,6 +546,14 @@ SILENT = [
     Silent("rename-and-invert-guard", JELLY, '        if not self.taster.isModuleAllowed(modName):\n            raise InsecureJelly("Module not allowed: %s" % modName)\n        # XXX do I need an isFunctionAllowed?\n        function = namedAny(fname)\n        return function\n',
            '        if self.taster.isModuleAllowed(modName):\n            fn = namedAny(fname)\n            return fn\n        raise InsecureJelly("Module not allowed: %s" % modName)\n'),
     Silent("module-part-by-rpartition", JELLY, '        clist = cname.split(nativeString("."))\n        modName = nativeString(".").join(clist[:-1])\n', '        modName = cname.rpartition(".")[0]\n'),
+    Silent("taster-alias-and-cached-answers", JELLY, '        if not self.taster.isModuleAllowed(modName):\n            raise InsecureJelly("module %s not allowed" % modName)\n        klaus = namedObject(cname)\n',
+           '        policy = self.taster\n        moduleOk = policy.isModuleAllowed(modName)\n        if not moduleOk:\n            raise InsecureJelly("module %s not allowed" % modName)\n        klaus = namedObject(cname)\n'),
+    Silent("type-answer-cached", JELLY, "        if not self.taster.isTypeAllowed(jelTypeBytes):\n            raise InsecureJelly(jelTypeBytes)\n",
+           "        typeOk = self.taster.isTypeAllowed(jelTypeBytes)\n        if not typeOk:\n            raise InsecureJelly(jelTypeBytes)\n"),
+    Silent("dereference-compacted-correctly", JELLY, "        if x is not None:\n            return x\n        der = _Dereference(refid)\n        self.references[refid] = der\n        return der\n",
+           "        if x is None:\n            x = self.references[refid] = _Dereference(refid)\n        return x\n"),
+    Silent("function-module-part-by-loop", JELLY, '        modName = nativeString(".").join(modSplit[:-1])\n',
+           '        parts = []\n        for piece in modSplit[:-1]:\n            parts.append(piece)\n        modName = nativeString(".").join(parts)\n'),
     Silent("class-check-combined", JELLY, '            clz = namedObject(jelTypeText)\n            if not self.taster.isClassAllowed(clz):\n                raise InsecureJelly("Class %s not allowed." % jelTypeText)\n            return self._genericUnjelly(clz, obj[1])\n',
            '            clz = namedObject(jelTypeText)\n            if self.taster.isClassAllowed(clz):\n                return self._genericUnjelly(clz, obj[1])\n            raise InsecureJelly("Class %s not allowed." % jelTypeText)\n'),
 ]
